@@ -8,7 +8,7 @@
    np.where behaviour of the code at /repo HEAD, [complements_fixed]/[where_fixed] the proposed repairs
    (notes/C14.fix-1.diff, notes/C14.fix-2.diff), [complements_pinned]/[where_pinned] the unrepaired code. *)
 From Coq Require Import ZArith List Bool String.
-From BNP Require Import Base.Prims Model.C14 Corr.C14 Proofs.C14 Proofs.C14_mask Proofs.C14_link Gen.C14 Bridge.C14.
+From BNP Require Import Base.Prims Model.C14 Corr.C14 Proofs.C14 Proofs.C14_mask Proofs.C14_link Proofs.C14_fasta Proofs.C14_fasta_call Gen.C14 Bridge.C14.
 Import ListNotations.
 Open Scope Z_scope.
 
@@ -308,3 +308,53 @@ Example C14_nonvacuous_round6 :
   /\ where_pinned [true] [str "G"] [str "C"] = Err 5
   /\ same_shape [str "T"; []; str "CG"] [str "A"; []; str "CG"].
 Proof. vm_compute. repeat split; try reflexivity. repeat constructor. Qed.
+
+(* ---------------------------------------------------------------------------------------------------------------- *)
+(* Round 6 strengthening — the indexed-FASTA backend (Genome.from_file(fa).read_sequence()[intervals],               *)
+(* IndexedFasta._get_interval_sequences_fast).                                                                       *)
+(* One turn of the fetch loop — seek to offset + (a / lenc) * lenb + a mod lenc, read up to the same expression for b,  *)
+(* np.delete the computed line-break positions lenb*(j+1)-1-(a mod lenc) — returns exactly seq[a:b]: for every line      *)
+(* width w > 0, every sequence (any length, last line full or partial), every 0 <= a <= b <= len seq, whatever precedes  *)
+(* (headers, other records) and follows the record body in the file.  The result depends on nothing but the file, the   *)
+(* index line and (a, b): in particular not on what was fetched before it.                                              *)
+Theorem C14_fasta_fetch :
+  forall w seq pre post rlen a b, 0 < w -> 0 <= a <= b -> b <= len seq ->
+    fa_fetch (pre ++ fa_body w seq ++ post) (rlen, len pre, w, w + 1) a b = slice a b seq.
+Proof. exact fa_fetch_slice. Qed.
+Print Assumptions C14_fasta_fetch.
+
+(* the same for a whole multi-record file written with a line break after every line and its standard .fai index
+   (offset of each record body, lenc = length of the record's first line, lenb = lenc + 1): every interval of every record,
+   each record wrapped to its own width, is fetched as seq[a:b] *)
+Theorem C14_fasta_file :
+  forall recs c r a b s, nth_error recs c = Some r -> 0 < fa_w r -> 0 <= a <= b -> b <= len (fa_seq r) ->
+    fa_fetch_iv (fa_file recs true) (fa_index_from 0 recs) (Z.of_nat c, a, b, s) = slice a b (fa_seq r).
+Proof. exact fa_fetch_file. Qed.
+Print Assumptions C14_fasta_file.
+
+(* the whole call GenomicSequence(indexed FASTA)[intervals] / extract_intervals(.., stranded): for every multi-record file whose
+   records are wrapped to any positive widths and hold symbols of ACGTNacgtn, with its standard index, and EVERY list of
+   intervals inside their records (any order, any nesting / overlap / repetition, any record changes, strands + / -), the
+   model of the call returns for every interval the forward subsequence (upper case: ACGTN encoding) when unstranded or '+',
+   and its reverse complement when '-'.  [rec_valid], [iv4_valid] : Proofs/C14_fasta_call.v. *)
+Theorem C14_fasta_call :
+  forall recs, Forall rec_valid recs -> forall stranded ivs, Forall (iv4_valid recs) ivs ->
+    model_fa_call complements where_rows (fa_file recs true) (fa_index_from 0 recs) stranded ivs
+    = Ok (map (fa_want recs stranded) ivs).
+Proof. exact fa_call_thm. Qed.
+Print Assumptions C14_fasta_call.
+
+(* model agrees => property holds, now also for the indexed-FASTA case class ([case_wf_fa] = [case_wf] on the older classes;
+   for CFa: every line terminated, valid records, the index on disk is the standard one, valid intervals in every call) *)
+Theorem C14_link_fasta : forall c, case_wf_fa c = true -> model_ok c = true -> prop_ok c = true.
+Proof. exact link_all_fa. Qed.
+Print Assumptions C14_link_fasta.
+
+(* non-vacuity: a two-record file (widths 3 and 4), a feature followed by features inside it that start on later lines,
+   an interval on the other record with the same coordinates, both strands; the whole call returns what the property asks *)
+Example C14_fasta_call_example :
+  let recs := [(str "c", str "CGNTCgcaCcGa", 3); (str "d", str "GGGGAC", 4)] in
+  let ivs : list iv4 := [(0, 1, 12, 45); (0, 4, 9, 45); (0, 7, 8, 43); (1, 1, 6, 45); (1, 4, 6, 43); (0, 4, 6, 43); (0, 12, 12, 45)] in
+  model_fa_call complements where_rows (fa_file recs true) (fa_index_from 0 recs) true ivs = Ok (map (fa_want recs true) ivs)
+  /\ model_fa_call complements where_rows (fa_file recs false) (fa_index_from 0 recs) false ivs = Ok (map (fa_want recs false) ivs).
+Proof. vm_compute. split; reflexivity. Qed.
